@@ -33,6 +33,7 @@ void rsv_setup(const char *prop) __attribute__((weak));
 static std::string g_prop, g_stats, g_faildir = ".", g_errfile;
 static double g_time_budget = 1e9, g_case_timeout = 60.0;
 static long g_shrink_budget = 400;
+static double g_shrink_time = 90.0;
 static unsigned g_tape_len = 0;
 static int g_child_fd = -1;
 
@@ -51,6 +52,7 @@ struct Stats {
 	std::vector<std::string> samples;
 	std::vector<int> sample_score;
 	uint64_t tape_bytes = 0;
+	uint64_t other_prop_failures = 0;
 } S;
 
 static std::string json_escape(const std::string &s)
@@ -253,6 +255,7 @@ static void dump_stats(double wall, const rsv_result *failure, const std::string
 	fprintf(f, " \"timeouts\": %llu, \"crashes\": %llu, \"nontrivial\": %llu, \"distinct_nontrivial\": %llu, \"tape_bytes\": %llu,\n",
 	    (unsigned long long)S.timeouts, (unsigned long long)S.crashes, (unsigned long long)S.nontrivial,
 	    (unsigned long long)S.fps.size(), (unsigned long long)S.tape_bytes);
+	fprintf(f, " \"other_property_failures\": %llu,\n", (unsigned long long)S.other_prop_failures);
 	fprintf(f, " \"rule\": \"%s\",\n", json_escape(rsv_rule).c_str());
 	fprintf(f, " \"cls_sum\": {");
 	bool first = true;
@@ -349,6 +352,8 @@ int main(int argc, char **argv)
 			g_case_timeout = atof(next().c_str());
 		else if(a == "--shrink-budget")
 			g_shrink_budget = atol(next().c_str());
+		else if(a == "--shrink-time")
+			g_shrink_time = atof(next().c_str());
 		else {
 			fprintf(stderr, "unknown argument %s\n", a.c_str());
 			return 3;
@@ -368,6 +373,7 @@ int main(int argc, char **argv)
 	bool have_fail = false;
 	long after_fail = 0;
 	long total_timeouts = 0;
+	double t_fail = 0;
 	std::vector<uint8_t> fail_tape;
 	rsv_result fail_res;
 	memset(&fail_res, 0, sizeof fail_res);
@@ -384,7 +390,7 @@ int main(int argc, char **argv)
 		// after the budgets are used up every further invocation is a no-op success
 		if(!have_fail && now_s() - t0 > g_time_budget)
 			return;
-		if(have_fail && ++after_fail > g_shrink_budget)
+		if(have_fail && (++after_fail > g_shrink_budget || now_s() - t_fail > g_shrink_time))
 			return;
 		if(total_timeouts >= 3)
 			return; // cases that run into the wall-clock limit are too expensive to keep generating or shrinking
@@ -394,6 +400,12 @@ int main(int argc, char **argv)
 		bool crashed, timedout;
 		run_case(tape, res, crashed, timedout);
 		total_timeouts += timedout;
+		if(res.verdict == RSV_FAIL && g_prop == "C11" && strcmp(res.prop, "C11")) {
+			// C11 (memory safety / UB) is decided by crashes, sanitizer reports and assertions only; a semantic oracle of
+			// another property that fails here is counted, it does not fail this check
+			res.verdict = RSV_PASS;
+			S.other_prop_failures++;
+		}
 		if(!have_fail) { // statistics describe the generated campaign, not the shrink attempts
 			S.evaluations++;
 			S.tape_bytes += tape.size();
@@ -447,6 +459,8 @@ int main(int argc, char **argv)
 			}
 		}
 		if(res.verdict == RSV_FAIL) {
+			if(!have_fail)
+				t_fail = now_s();
 			have_fail = true;
 			fail_tape = tape;
 			fail_res = res;
